@@ -15,6 +15,18 @@ pub enum Event {
     ScopeStart {
         name: String,
     },
+    /// the script-text span of the `new` whose scope the next ScopeStart opens
+    ScopeSpan {
+        name: String,
+        left: usize,
+        right: usize,
+    },
+    /// the script-text position of the stream or stream map operand that the next StreamAdd,
+    /// CanonSnapshot or FoldStart event refers to
+    StreamUse {
+        name: String,
+        air_pos: usize,
+    },
     ScopeEnd {
         name: String,
     },
